@@ -1,88 +1,46 @@
-import S3V.Model.DtoCivil
+import S3V.Thm.CivilEraA
+import S3V.Thm.CivilEraB
 /-!
 # The 400-year era: `decDoe` and `encDoe` are inverse bijections between day-of-era 0 … 146096 and
 valid (year-of-era, month-from-March, day) triples
 
-Two finite facts, each checked by kernel evaluation (`decide +kernel`) through a binary-split
-checker with a proved soundness lemma (a plain bounded `∀` would make the kernel recurse too deep).
-This module is separate so that the two evaluations (~3 min each) are compiled once and cached.
+Two finite facts, each checked by kernel evaluation (`decide +kernel`, no extra axiom) through a
+binary-split checker with a proved soundness lemma, in chunks of 2^15 cases
+(`CivilEraA` / `CivilEraB`, compiled in parallel, once, then cached).
 -/
 namespace S3V.Dto
-
-def allBin (f : Nat → Bool) : Nat → Nat → Bool
-  | 0, s => f s
-  | d + 1, s => allBin f d s && allBin f d (s + 2 ^ d)
-
-theorem allBin_sound (f : Nat → Bool) :
-    ∀ d s, allBin f d s = true → ∀ i, s ≤ i → i < s + 2 ^ d → f i = true := by
-  intro d
-  induction d with
-  | zero =>
-    intro s h i h1 h2
-    simp [allBin] at h
-    have : i = s := by simp at h2; omega
-    subst this; exact h
-  | succ d ih =>
-    intro s h i h1 h2
-    simp only [allBin, Bool.and_eq_true] at h
-    by_cases hi : i < s + 2 ^ d
-    · exact ih s h.1 i h1 hi
-    · exact ih (s + 2 ^ d) h.2 i (by omega) (by rw [Nat.pow_succ] at h2; omega)
-
-/-- leap rule for the calendar year that contains January/February of era-year `yoe` (= `yoe + 1`) -/
-def eraLeap (yoe : Nat) : Bool := (yoe + 1) % 4 = 0 && ((yoe + 1) % 100 ≠ 0 || (yoe + 1) % 400 = 0)
-
-/-- length of month `mp` (0 = March … 11 = February) of era-year `yoe` -/
-def eraMonthLen (yoe mp : Nat) : Nat :=
-  if mp = 11 then (if eraLeap yoe then 29 else 28)
-  else if mp = 1 || mp = 3 || mp = 6 || mp = 8 then 30 else 31
-
-def validEra (yoe mp d : Nat) : Bool := yoe < 400 && mp < 12 && 1 ≤ d && d ≤ eraMonthLen yoe mp
-
-def okDec (doe : Nat) : Bool :=
-  doe ≥ 146097 ||
-  (let (yoe, mp, d) := decDoe doe
-   encDoe yoe mp d == doe && validEra yoe mp d)
-
-def okEnc (i : Nat) : Bool :=
-  let yoe := i / 384
-  let mp := i / 32 % 12
-  let d := i % 32
-  !validEra yoe mp d ||
-  (encDoe yoe mp d < 146097 && decDoe (encDoe yoe mp d) == (yoe, mp, d))
-
-theorem okDec_bin : allBin okDec 18 0 = true := by decide +kernel
-theorem okEnc_bin : allBin okEnc 18 0 = true := by decide +kernel
 
 /-- every day of the era decodes to a valid triple that encodes back to it -/
 theorem era_dec (doe : Nat) (h : doe < 146097) :
     encDoe (decDoe doe).1 (decDoe doe).2.1 (decDoe doe).2.2 = doe ∧
-    validEra (decDoe doe).1 (decDoe doe).2.1 (decDoe doe).2.2 = true := by
-  have := allBin_sound okDec 18 0 okDec_bin doe (by omega) (by omega)
-  simp only [okDec, Bool.or_eq_true, decide_eq_true_eq, Bool.and_eq_true, beq_iff_eq] at this
-  rcases this with h' | h'
+    (decDoe doe).1 < 400 ∧ (decDoe doe).2.1 < 12 ∧ 1 ≤ (decDoe doe).2.2 ∧
+    (decDoe doe).2.2 ≤ eraMonthLen (decDoe doe).1 (decDoe doe).2.1 := by
+  have := five_chunks okDec okDec_0 okDec_1 okDec_2 okDec_3 okDec_4 doe (by omega)
+  simp only [okDec, Bool.or_eq_true, Nat.ble_eq, Bool.and_eq_true] at this
+  rcases this with h' | ⟨h1, h2⟩
   · omega
-  · exact h'
+  · exact ⟨Nat.eq_of_beq_eq_true h1, (validEra_iff _ _ _).mp h2⟩
 
 /-- every valid triple encodes to a day of the era that decodes back to it -/
-theorem era_enc (yoe mp d : Nat) (h : validEra yoe mp d = true) :
+theorem era_enc (yoe mp d : Nat) (h1 : yoe < 400) (h2 : mp < 12) (h3 : 1 ≤ d) (h4 : d ≤ eraMonthLen yoe mp) :
     encDoe yoe mp d < 146097 ∧ decDoe (encDoe yoe mp d) = (yoe, mp, d) := by
-  have hv := h
-  simp only [validEra, Bool.and_eq_true, decide_eq_true_eq] at hv
-  obtain ⟨⟨⟨h1, h2⟩, h3⟩, h4⟩ := hv
   have hd : d ≤ 31 := by
     have : eraMonthLen yoe mp ≤ 31 := by
       unfold eraMonthLen; split
       · split <;> omega
       · split <;> omega
     omega
-  have hi : yoe * 384 + mp * 32 + d < 0 + 2 ^ 18 := by omega
-  have := allBin_sound okEnc 18 0 okEnc_bin (yoe * 384 + mp * 32 + d) (by omega) hi
+  have := five_chunks okEnc okEnc_0 okEnc_1 okEnc_2 okEnc_3 okEnc_4 (yoe * 384 + mp * 32 + d) (by omega)
   have e1 : (yoe * 384 + mp * 32 + d) / 384 = yoe := by omega
   have e2 : (yoe * 384 + mp * 32 + d) / 32 % 12 = mp := by omega
   have e3 : (yoe * 384 + mp * 32 + d) % 32 = d := by omega
-  simp only [okEnc, e1, e2, e3, h, Bool.not_true, Bool.false_or, Bool.and_eq_true, decide_eq_true_eq,
-    beq_iff_eq] at this
-  exact this
+  have hv : validEraB yoe mp d = true := (validEra_iff _ _ _).mpr ⟨h1, h2, h3, h4⟩
+  simp only [okEnc, e1, e2, e3, hv, Bool.not_true, Bool.false_or, Bool.and_eq_true, Nat.blt_eq] at this
+  obtain ⟨⟨⟨a, b⟩, c⟩, e⟩ := this
+  refine ⟨a, ?_⟩
+  have b' := Nat.eq_of_beq_eq_true b
+  have c' := Nat.eq_of_beq_eq_true c
+  have e' := Nat.eq_of_beq_eq_true e
+  exact Prod.ext b' (Prod.ext c' e')
 
 end S3V.Dto
